@@ -69,15 +69,17 @@ TransP(P, t) == Mat([i \in 1..Len(P) |-> <<P[i][1] + t[1], P[i][2] + t[2]>>])
 ScaleP(P, k) == Mat([i \in 1..Len(P) |-> <<k * P[i][1], k * P[i][2]>>])
 
 (* ------------------------------ simplicity ----------------------------- *)
-OnSeg(a, b, p) == /\ Cr(a, b, p) = 0
-                  /\ Min(a[1], b[1]) <= p[1] /\ p[1] <= Max(a[1], b[1])
+InBox(a, b, p) == /\ Min(a[1], b[1]) <= p[1] /\ p[1] <= Max(a[1], b[1])
                   /\ Min(a[2], b[2]) <= p[2] /\ p[2] <= Max(a[2], b[2])
-\* closed segments ab and cd have a common point
+\* p lies on the closed segment ab
+OnSeg(a, b, p) == Cr(a, b, p) = 0 /\ InBox(a, b, p)
+\* closed segments ab and cd have a common point (proper crossing, or an end point of one on the other)
 SegMeet(a, b, c, d) ==
   LET d1 == Sgn(Cr(a, b, c))  d2 == Sgn(Cr(a, b, d))
       d3 == Sgn(Cr(c, d, a))  d4 == Sgn(Cr(c, d, b))
   IN  \/ (d1 * d2 < 0 /\ d3 * d4 < 0)
-      \/ OnSeg(a, b, c) \/ OnSeg(a, b, d) \/ OnSeg(c, d, a) \/ OnSeg(c, d, b)
+      \/ (d1 = 0 /\ InBox(a, b, c)) \/ (d2 = 0 /\ InBox(a, b, d))
+      \/ (d3 = 0 /\ InBox(c, d, a)) \/ (d4 = 0 /\ InBox(c, d, b))
 \* consecutive segments ab, bc meet in b only (a straight angle is allowed, folding back is not)
 AdjOK(a, b, c) == Cr(a, b, c) # 0 \/ (a[1] - b[1]) * (c[1] - b[1]) + (a[2] - b[2]) * (c[2] - b[2]) < 0
 
@@ -192,19 +194,17 @@ TolPer  == 1000      \* between two logged perimeters
 PolyOf(pos, cyc) == Mat([i \in 1..Len(cyc) |-> pos[cyc[i]]])
 
 \* D: the other cells sharing a vertex
-SharesVertex(cycles, c, d) == \E i \in DOMAIN cycles[c] : \E j \in DOMAIN cycles[d] : cycles[c][i] = cycles[d][j]
+SharesVertex(cycles, c, d) == Rg(cycles[c]) \cap Rg(cycles[d]) # {}
 Neighbours(cycles, c) == {d \in DOMAIN cycles : d # c /\ SharesVertex(cycles, c, d)}
 \* I: transcription of calculate_neighbors (union of ownCells of the cell's vertices, minus itself)
 ImplNeighbours(m, c) == (UNION {Rg(m.oc[m.C[c][i]]) : i \in DOMAIN m.C[c]}) \ {c}
 
-\* directed edges of all cells, as a set of <<cell, a, b>>
-DirEdges(cycles) == UNION {{<<c, cycles[c][i], cycles[c][Nxt(i, Len(cycles[c]))]>> : i \in DOMAIN cycles[c]}
-                           : c \in DOMAIN cycles}
-\* number of cells owning the undirected edge {a, b}
-Owners(de, a, b) == {t[1] : t \in {u \in de : (u[2] = a /\ u[3] = b) \/ (u[2] = b /\ u[3] = a)}}
+\* edges of all cells as a set of <<cell, lo, hi>> (lo < hi the two end vertices)
+CellEdges(cycles) == UNION {{LET a == cycles[c][i]  b == cycles[c][Nxt(i, Len(cycles[c]))]
+                             IN  <<c, Min(a, b), Max(a, b)>> : i \in DOMAIN cycles[c]} : c \in DOMAIN cycles}
 \* border edges: unordered pairs owned by exactly one cell
-BorderPairs(cycles) == LET de == DirEdges(cycles) IN
-                       {{t[2], t[3]} : t \in {u \in de : Cardinality(Owners(de, u[2], u[3])) = 1}}
+BorderPairs(cycles) == LET ce == CellEdges(cycles) IN
+                       {{t[2], t[3]} : t \in {u \in ce : \A d \in DOMAIN cycles : d = u[1] \/ <<d, u[2], u[3]>> \notin ce}}
 BorderNbrs(bp, v) == {w \in UNION bp : {v, w} \in bp /\ w # v}
 RECURSIVE WalkOutline(_, _, _, _, _)
 WalkOutline(bp, start, prev, cur, fuel) ==
@@ -235,11 +235,14 @@ ConsistentlyOriented(pos, cycles) ==
   LET total == SumFrom(LAMBDA c : Len(cycles[c]), 1, Len(cycles))
   IN  Cardinality(CcwEdges(pos, cycles)) = total
 
-HoleFree(pos, cycles) ==
+\* (the part of R5 that is about the arrangement of the cells, given that every cell is simple)
+HoleFreeArrangement(pos, cycles) ==
   /\ Len(cycles) >= 1
-  /\ \A c \in DOMAIN cycles : Simple(PolyOf(pos, cycles[c]))
   /\ ConsistentlyOriented(pos, cycles)
   /\ SingleCycle(BorderPairs(cycles))
+HoleFree(pos, cycles) ==
+  /\ \A c \in DOMAIN cycles : Simple(PolyOf(pos, cycles[c]))
+  /\ HoleFreeArrangement(pos, cycles)
 
 OutlineArea2(pos, cycles) == Abs(Area2(PolyOf(pos, Outline(BorderPairs(cycles)))))
 SumAbsArea2(pos, cycles) == SumFrom(LAMBDA c : Abs(Area2(PolyOf(pos, cycles[c]))), 1, Len(cycles))
